@@ -1,10 +1,10 @@
 (* Check/TorfileCheck.v — correspondence and monitor predicates for C13. *)
-From Storrent Require Import Base.Bytes Base.Bencode Gen.Consts Model.Wire Model.Torfile Check.WireCheck.
+From Storrent Require Import Base.Bytes Base.Bencode Gen.Consts Model.Wire Model.Torfile Model.TorWrite Check.WireCheck.
 Open Scope N_scope.
 
 Inductive tobs :=
 | TObsOk (info : bytes) (g : geometry) (cdate : Z) (trackers : list (list bytes))
-         (urllist httpseeds : list bytes) (hash_ok wr_ok : bool)
+         (urllist httpseeds : list bytes) (hash_ok wr_ok : bool) (written : bytes)
 | TObsErr
 | TObsPanic.
 
@@ -26,9 +26,11 @@ Fixpoint is_infix (fuel : nat) (p s : bytes) : bool :=
 
 Definition corr13 (c : tcase) : bool :=
   match read_torrent (t_input c), t_obs c with
-  | ROk raw g cd tr ul hs, TObsOk info g' cd' tr' ul' hs' _ _ =>
+  | ROk raw g cd tr ul hs, TObsOk info g' cd' tr' ul' hs' _ _ wr =>
       bytes_eqb raw info && geometry_eqb g g' && (cd =? cd')%Z &&
-      list_eqb strs_eqb tr tr' && strs_eqb ul ul' && strs_eqb hs hs'
+      list_eqb strs_eqb tr tr' && strs_eqb ul ul' && strs_eqb hs hs' &&
+      (* tor.WriteTorrent's bytes are those of the model (Model/TorWrite.v) *)
+      bytes_eqb wr (write_torrent info cd' tr' ul' hs')
   | RErr, TObsErr => true
   | RPanic, TObsPanic => true
   | _, _ => false
@@ -38,7 +40,7 @@ Definition monitor13 (c : tcase) : bool :=
   match t_obs c with
   | TObsPanic => false
   | TObsErr => true
-  | TObsOk info g _ _ _ _ hash_ok wr_ok =>
+  | TObsOk info g _ _ _ _ hash_ok wr_ok _ =>
       geometry_ok g && hash_ok && wr_ok && is_infix (S (length (t_input c))) info (t_input c)
   end.
 
